@@ -56,7 +56,7 @@ pub fn main_with(find: fn(&str) -> Option<Prop>) -> i32 {
                 journal: arg(&args, "--journal"),
                 deadline: Duration::from_secs(arg(&args, "--deadline").and_then(|s| s.parse().ok()).unwrap_or(600)),
                 miri: cfg!(miri) || flag(&args, "--single"),
-                no_extra: flag(&args, "--no-extra"),
+                no_extra: flag(&args, "--no-extra") || cfg!(miri),
                 max_violations: arg(&args, "--max-violations").and_then(|s| s.parse().ok()).unwrap_or(200),
             };
             let (stats, wall) = run::run(prop.clone(), &cfg);
